@@ -2315,7 +2315,15 @@ func (interp *Interpreter) cfg(root *node, sc *scope, importPath, pkgName string
 				} else {
 					body := c.lastChild()
 					c.tnext = body.start
-					c.child[0].tnext = c
+					last := c.child[0]
+					if n.kind == switchStmt && len(c.child) > 2 {
+						// Evaluate all the expressions of the clause list, in source order, before the clause test.
+						for _, e := range c.child[1 : len(c.child)-1] {
+							last.tnext = e.start
+							last = e
+						}
+					}
+					last.tnext = c
 					c.start = c.child[0].start
 
 					if i < l-1 && len(body.child) > 0 && body.lastChild().kind == fallthroughtStmt {
